@@ -397,6 +397,18 @@ def property_violations(req, line):
     return bad
 
 
+def smooth_run(req, model_events):
+    """the run is a plain Newton iteration on the smooth polynomial system of the request: every residual evaluation
+    was answered by the polynomial oracle (kind 3, success), no clamping hook is active, and the reference run
+    converged without any restart"""
+    if req.dmax != INF or req.lo != -INF or req.hi != INF:
+        return False
+    nres = sum(1 for e in model_events if e and e[0] == "R")
+    if any(req.entry_of_call(k) != (True, 3, None, None) for k in range(nres)):
+        return False
+    return not any(e and e[0] in ("I", "X", "J") for e in model_events)
+
+
 # ---------------------------------------------------------------- running
 def run_lines(ck, cmd, lines, timeout=None):
     """run a line-protocol program on `lines`, in chunks. A chunk that times out or crashes is split and
@@ -536,6 +548,19 @@ def run(ck):
                        {"solver": s, "request": r.line, "implementation_trace": a, "model_trace": m}, False)
             if a != m:
                 stats["disagreements"] += 1
+                pm_ = parse_trace(m)
+                if (s == "nr" and p and pm_ and pm_[1]["ret"] and not p[1]["ret"] and smooth_run(r, pm_[0])):
+                    # last clause of C08 on a concrete run: the verified Newton iteration converges on this smooth
+                    # system from this starting point, the implementation does not
+                    viol.append(("newton-no-convergence",
+                                 "Newton-Raphson does not converge (ret=0, iter=%s) on a smooth system and starting point from which "
+                                 "the Newton iteration converges in %d iterations" % (p[1].get("iter"), pm_[1].get("iter", -1))))
+                    report("%s:%s" % (SITE["nr"], "newton-no-convergence"),
+                           "%s [%s, N=%d, iterMax=%d]: %s" % (s, r.cls, r.n, r.itermax, viol[-1][1]),
+                           {"solver": s, "site": SITE["nr"], "request": r.line, "implementation_trace": a, "model_trace": m,
+                            "violated_clause": "Newton converges inside its basin of quadratic convergence",
+                            "x0": r.x0, "A": r.A, "cq": r.cq, "b": r.b, "history": a.split(";"),
+                            "replay_cmd": "echo '<request>' | work/C08/c08_nr  (bin/check C08 rebuilds it)"}, True)
                 if not viol:
                     ea, em = a.split(";"), m.split(";")
                     d = next((i for i in range(min(len(ea), len(em))) if ea[i] != em[i]), min(len(ea), len(em)))
